@@ -158,8 +158,8 @@ pub fn record(args: &[String]) {
     let mut out = NdjsonOut::create(arg(args, "--out").unwrap());
     let thorough = args.iter().any(|a| a == "--thorough");
     let seed = arg_u64(args, "--seed", 1);
-    let ns: Vec<usize> = if thorough { vec![2, 3, 5, 8, 17, 64] } else { vec![2, 3, 8] };
-    let mut seeds: Vec<Option<u64>> = vec![None, Some(0), Some(42), Some(u64::MAX), Some(u64::MAX - 1)];
+    let ns: Vec<usize> = if thorough { vec![2, 3, 5, 8, 17, 33, 64] } else { vec![2, 3, 8, 33] };
+    let mut seeds: Vec<Option<u64>> = vec![None, Some(0), Some(42), Some(u64::MAX), Some(u64::MAX - 1), Some((1u64 << 63) - 2), Some(42 + (1u64 << 32))];
     let mut s = seed;
     seeds.push(Some(splitmix(&mut s)));
     for &n in &ns {
